@@ -50,7 +50,15 @@ func (e ErrGlobNoMatch) Error() string {
 // Glob returns a map with source file path as keys and destination as values.
 // First the longest common prefix (lcp) of all globbed files is found. The destination
 // for each globbed file is then dst joined with src with the lcp trimmed off.
-func Glob(pattern, dst string, ignoreMatchers bool) (map[string]string, error) {
+func Glob(pattern, dst string, ignoreMatchers bool) (files map[string]string, err error) {
+	// the pattern matcher panics on some malformed patterns (e.g. an
+	// unterminated or empty brace group): report them as an error
+	defer func() {
+		if r := recover(); r != nil {
+			files, err = nil, fmt.Errorf("glob failed: %s: invalid pattern: %v", pattern, r)
+		}
+	}()
+
 	options := []fileglob.OptFunc{fileglob.MatchDirectoryIncludesContents}
 	if ignoreMatchers {
 		options = append(options, fileglob.QuoteMeta)
@@ -77,7 +85,7 @@ func Glob(pattern, dst string, ignoreMatchers bool) (map[string]string, error) {
 		return nil, ErrGlobNoMatch{pattern}
 	}
 
-	files := make(map[string]string)
+	files = make(map[string]string)
 	prefix := pattern
 	// the prefix may not be a complete path or may use glob patterns, in that case use the parent directory
 	if _, err := os.Stat(prefix); errors.Is(err, fs.ErrNotExist) || (fileglob.ContainsMatchers(pattern) && !ignoreMatchers) {
